@@ -477,5 +477,46 @@ V("C04-dask-arm-stale-arg", ["C04", "C06"], "kmeans", "                stats = [
 V("C04-dask-tasks-filtered", ["C04", "C02"], "gmm", "                stats = [dask.delayed(e_step)(data=xx, machine=self) for xx in X]", "                stats = [dask.delayed(e_step)(data=xx, machine=self) for xx in X[:-1]]", "last block never processed")
 V("C04-dask-partial-reduced", ["C04"], "kmeans", "self.centroids_, self.average_min_distance = dask.compute(dask.delayed(m_step)(stats, n_samples))[0]", "self.centroids_, self.average_min_distance = dask.compute(dask.delayed(m_step)(stats[1:], n_samples))[0]", "first block's statistics dropped before the M-step")
 V("C04-init-arms-crossed", ["C04", "C12"], "factor_analysis", "            f_acc = [dask.delayed(self._sum_f_statistics)(xx, yy, n_classes) for xx, yy in zip(ubm_projected_X, y)]", "            f_acc = [dask.delayed(self._sum_n_statistics)(xx, yy, n_classes) for xx, yy in zip(ubm_projected_X, y)]", "Dask arm accumulates zeroth-order statistics where first-order are needed")
-V("C04-update-y-role-crossed", ["C04", "C12", "C09"], "factor_analysis", "                latent_y = [dask.delayed(self._latent_y_per_class)(X_i=X_i, n_acc_i=n_acc[label], f_acc_i=f_acc[label], VProd=VProd, VTinvSigma=VTinvSigma, latent_x_i=latent_x[label], latent_z_i=latent_z[label]) for label, X_i in enumerate(X)]", "                latent_y = [dask.delayed(self._latent_y_per_class)(X_i=X_i, n_acc_i=n_acc[label], f_acc_i=f_acc[label], VProd=VProd, VTinvSigma=VTinvSigma, latent_x_i=latent_x[label], latent_z_i=latent_z[0]) for label, X_i in enumerate(X)]", "Dask arm uses class 0's offset for every class", may_be_undecided=True)
+V("C04-update-y-role-crossed", ["C04", "C12", "C09"], "factor_analysis", "latent_x_i=latent_x[label], latent_z_i=latent_z[label]) for label, X_i in enumerate(X)]", "latent_x_i=latent_x[label], latent_z_i=latent_z[0]) for label, X_i in enumerate(X)]", "Dask arm uses class 0's offset for every class", may_be_undecided=True)
 V("C04-nsamples-after-split", ["C04", "C06"], "kmeans", "        n_samples = len(X)\n        logger.debug('Transform X array to delayed list')\n        X = array_to_delayed_list(X, input_is_dask)", "        logger.debug('Transform X array to delayed list')\n        X = array_to_delayed_list(X, input_is_dask)\n        n_samples = len(X)", "sample count = number of blocks in the Dask arm")
+
+# ----------------------------------------------------------------------------- C12
+TREE = "stats = [dask.delayed(operator.add)(stats[i], stats[length // 2 + i]) for i in range(length // 2)]"
+V("C12-tree-off-by-one", ["C12"], "ivector", TREE, "stats = [dask.delayed(operator.add)(stats[i], stats[length // 2 + i + 1]) for i in range(length // 2)]", "pairwise tree pairs i with h+i+1")
+V("C12-tree-carry-dropped", ["C12"], "ivector", "                    if length % 2 != 0:\n                        stats.append(last)\n", "", "odd carry dropped: with an odd number of partitions one is lost")
+V("C12-tree-carry-even", ["C12"], "ivector", "                    if length % 2 != 0:\n                        stats.append(last)", "                    if length % 2 == 0:\n                        stats.append(last)", "carry appended for even lengths (double counting)")
+V("C12-tree-carry-late", ["C12"], "ivector", "                    last = stats[-1]\n                    " + TREE, "                    " + TREE + "\n                    last = stats[-1]", "carry taken after the list was rebound")
+V("C12-tree-iadd", ["C12", "C19"], "ivector", TREE, "stats = [dask.delayed(operator.iadd)(stats[i], stats[length // 2 + i]) for i in range(length // 2)]", "pairs combined in place")
+V("C12-tree-h-local", ["C12"], "ivector", "                    last = stats[-1]\n                    " + TREE, "                    last = stats[-1]\n                    h = length // 2\n                    stats = [dask.delayed(operator.add)(stats[i], stats[h + i]) for i in range(h)]", "half length bound to a local", kind="benign")
+V("C12-mstep-slice", ["C12", "C04"], "factor_analysis", "delayed_em_step = dask.delayed(self.m_step_u)(e_step_output)", "delayed_em_step = dask.delayed(self.m_step_u)(e_step_output[:-1])", "last class's accumulators dropped before the U M-step")
+V("C12-D-not-stored", ["C12", "C04", "C09"], "factor_analysis", "                delayed_em_step = dask.delayed(self.m_step_d)(e_step_output)\n                self._D = dask.compute(delayed_em_step)[0]", "                delayed_em_step = dask.delayed(self.m_step_d)(e_step_output)\n                dask.compute(delayed_em_step)", "computed D never stored")
+V("C12-V-stored-as-U", ["C12", "C04", "C09"], "factor_analysis", "                delayed_em_step = dask.delayed(self.m_step_v)(e_step_output)\n                self._V = dask.compute(delayed_em_step)[0]", "                delayed_em_step = dask.delayed(self.m_step_v)(e_step_output)\n                self._U = dask.compute(delayed_em_step)[0]", "computed V stored into U")
+V("C12-ivector-copyback-sigma", ["C12"], "ivector", "                for attr in ['T', 'sigma']:", "                for attr in ['T']:", "sigma never copied back from the computed machine")
+V("C12-ivector-estep-writes", ["C12", "C19"], "ivector", "    return stats\n\ndef m_step", "    machine.T = machine.T * 1.0\n    return stats\n\ndef m_step", "the per-partition E-step task writes the machine")
+V("C12-stats-add-field", ["C12", "C02"], "ivector", "        result.nij = self.nij + other.nij\n", "", "IVectorStats.__add__ forgets the counts")
+V("C12-route-counter-late", ["C12"], "factor_analysis", "                class_id = y[i]\n                X[class_id].append(delayed_stat)\n                i += 1", "                i += 1\n                class_id = y[i - 1 if i < len(y) else 0]\n                X[class_id].append(delayed_stat)", "counter juggling", kind="skip")
+V("C12-route-skip", ["C12"], "factor_analysis", "                class_id = y[i]\n                X[class_id].append(delayed_stat)\n                i += 1", "                class_id = y[i]\n                if class_id >= 0:\n                    X[class_id].append(delayed_stat)\n                i += 1", "routing filtered by a condition")
+V("C12-route-counter-per-partition", ["C12"], "factor_analysis", "                class_id = y[i]\n                X[class_id].append(delayed_stat)\n                i += 1", "                class_id = y[i]\n                X[class_id].append(delayed_stat)\n            i += 1", "label index advances once per partition: partitions that mix classes are mis-routed")
+V("C12-route-wrong-list", ["C12"], "factor_analysis", "                X[class_id].append(delayed_stat)", "                X[class_id - 1].append(delayed_stat)", "statistics routed to the neighbouring class")
+V("C12-labels-other-order", ["C12"], "factor_analysis", "y = [y[y == class_id] for class_id in range(n_classes)]", "y = [y[y == class_id] for class_id in reversed(range(n_classes))]", "per-class labels regrouped in another order than the per-class statistics")
+
+# ----------------------------------------------------------------------------- C09
+V("C09-A1-no-covariance", ["C09"], "factor_analysis", "            id_plus_prod_v_i = self._compute_id_plus_vprod_i(n_acc_i, VProd)\n            id_plus_prod_v_i += latent_y_i[:, np.newaxis] @ latent_y_i[:, np.newaxis].T", "            id_plus_prod_v_i = latent_y_i[:, np.newaxis] @ latent_y_i[:, np.newaxis].T", "posterior covariance dropped from the V accumulator A1 (hard EM)")
+V("C09-A1-minus-outer", ["C09"], "factor_analysis", "            id_plus_prod_v_i += latent_y_i[:, np.newaxis] @ latent_y_i[:, np.newaxis].T", "            id_plus_prod_v_i -= latent_y_i[:, np.newaxis] @ latent_y_i[:, np.newaxis].T", "outer product subtracted in A1")
+V("C09-A2-no-residual", ["C09"], "factor_analysis", "            acc_V_A2 += fn_y_i[np.newaxis].T @ latent_y_i[:, np.newaxis].T", "            acc_V_A2 += f_acc_i.flatten()[np.newaxis].T @ latent_y_i[:, np.newaxis].T", "A2 uses the raw first-order statistics instead of the residual")
+V("C09-V-reshape-wrong", ["C09"], "factor_analysis", "self._V = V_c.reshape((self.ubm.n_gaussians * self.feature_dimension, self.r_V))", "self._V = V_c.reshape((self.ubm.n_gaussians, self.feature_dimension * self.r_V))", "V stored as (components, features*rank)")
+V("C09-U-split-wrong", ["C09"], "factor_analysis", "U_c = acc_U_A2.reshape(self.ubm.n_gaussians, self.feature_dimension, self.r_U) @ inv_A1", "U_c = acc_U_A2.reshape(self.feature_dimension, self.ubm.n_gaussians, self.r_U) @ inv_A1", "A2 split as (features, components, rank): rows of different components are mixed")
+V("C09-D-product", ["C09", "C15"], "factor_analysis", "self._D = acc_D_A2 / acc_D_A1", "self._D = acc_D_A2 * acc_D_A1", "D = A2 * A1", may_be_undecided=False)
+V("C09-ustep-zero-y", ["C09"], "factor_analysis", "                e_step_output = self.e_step_u(X=X, y=y, n_samples_per_class=n_samples_per_class, latent_y=latent_y)", "                e_step_output = self.e_step_u(X=X, y=y, n_samples_per_class=n_samples_per_class, latent_y=None)", "U phase (in-memory arm) ignores the speaker factors")
+V("C09-finalize-u-early", ["C09"], "factor_analysis",
+  "        latent_y = self.finalize_v(X=X, y=y, n_samples_per_class=n_samples_per_class, n_acc=n_acc, f_acc=f_acc)\n        for i in range(self.em_iterations):\n            logger.info('U Training: Iteration %d', i + 1)",
+  "        latent_y = self.finalize_v(X=X, y=y, n_samples_per_class=n_samples_per_class, n_acc=n_acc, f_acc=f_acc)\n        latent_x = self.finalize_u(X=X, y=y, n_samples_per_class=n_samples_per_class, latent_y=latent_y)\n        for i in range(self.em_iterations):\n            logger.info('U Training: Iteration %d', i + 1)",
+  "an extra finalize_u before the U loop (value overwritten later)", kind="benign", may_be_undecided=True)
+V2("C09-finalize-u-before-loop", ["C09"], [
+    dict(module="factor_analysis", old="        latent_y = self.finalize_v(X=X, y=y, n_samples_per_class=n_samples_per_class, n_acc=n_acc, f_acc=f_acc)\n        for i in range(self.em_iterations):\n            logger.info('U Training: Iteration %d', i + 1)", new="        latent_y = self.finalize_v(X=X, y=y, n_samples_per_class=n_samples_per_class, n_acc=n_acc, f_acc=f_acc)\n        latent_x = self.finalize_u(X=X, y=y, n_samples_per_class=n_samples_per_class, latent_y=latent_y)\n        for i in range(self.em_iterations):\n            logger.info('U Training: Iteration %d', i + 1)"),
+    dict(module="factor_analysis", old="        latent_x = self.finalize_u(X=X, y=y, n_samples_per_class=n_samples_per_class, latent_y=latent_y)\n        for i in range(self.em_iterations):\n            logger.info('D Training", new="        for i in range(self.em_iterations):\n            logger.info('D Training"),
+  ], "channel factors for the D phase computed with the untrained U")
+V("C09-dstep-stale-x", ["C09"], "factor_analysis", "                e_step_output = self.e_step_d(X=X, y=y, n_samples_per_class=n_samples_per_class, latent_x=latent_x, latent_y=latent_y, n_acc=n_acc, f_acc=f_acc)", "                e_step_output = self.e_step_d(X=X, y=y, n_samples_per_class=n_samples_per_class, latent_x=None, latent_y=latent_y, n_acc=n_acc, f_acc=f_acc)", "D phase ignores the channel factors", may_be_undecided=False)
+V("C09-two-msteps", ["C09"], "factor_analysis", "                self.m_step_v([e_step_output])\n        latent_y", "                self.m_step_v([e_step_output])\n                self.m_step_v([e_step_output])\n        latent_y", "two M-steps on the same E-step statistics")
+V("C09-phase-iterations", ["C09"], "factor_analysis", "        for i in range(self.em_iterations):\n            logger.info('D Training", "        for i in range(self.em_iterations - 1):\n            logger.info('D Training", "D phase runs one pass fewer")
+V("C09-UProd-unscaled", ["C09", "C15"], "factor_analysis", "        UProd = UcT / sigma_c @ Uc", "        UProd = UcT @ Uc", "U' Sigma^-1 U computed without the covariances")
